@@ -341,9 +341,23 @@ func c08Run(c *core.Ctx, idx int) {
 	}
 
 	// Extra rules: x1 and variations of it.
+	// The extra rules are about ads.com like the base; one case in six they
+	// have a pattern of their own with raw non-ASCII text in it (five ASCII
+	// bytes, then a multi-byte character), and the request carries that text.
+	xPattern, xURL, xHost := "||ads.com^", "http://ads.com/banner", "ads.com"
+	if c.Rng.Intn(6) == 0 {
+		if dns {
+			xPattern, xHost = "||adsr-\u00fcnl\u00fc.com^", "adsr-\u00fcnl\u00fc.com"
+		} else {
+			k := c.Rng.Intn(3)
+			xPattern = []string{"/ban/\u0440\u0435\u043a\u043b\u0430\u043c\u0430", "||ads.com/ban/\u00fcnl\u00fc", "/ads/\u5e7f\u544a/"}[k]
+			xURL = []string{"http://ads.com/ban/\u0440\u0435\u043a\u043b\u0430\u043c\u0430.js", "http://ads.com/ban/\u00fcnl\u00fc?x=1", "http://ads.com/ads/\u5e7f\u544a/1.gif"}[k]
+		}
+		c.Event("extra_rules_with_raw_non_ascii_patterns", 1)
+	}
 	var x1 *gen.Spec
 	for try := 0; try < 50 && (x1 == nil || canon[x1.CanonKey()]); try++ {
-		x1 = c08RandomSpec(c, "||ads.com^", dns)
+		x1 = c08RandomSpec(c, xPattern, dns)
 	}
 	if canon[x1.CanonKey()] {
 		c.Inconclusive("could-not-make-distinct-rule")
@@ -366,12 +380,12 @@ func c08Run(c *core.Ctx, idx int) {
 	for try := 0; try < 12 && len(reqs) < 4; try++ {
 		q := gen.TargetedReq(c.Rng, x1, "ads.com", 0)
 		if dns {
-			q = &gen.Req{HostnameReq: true, Host: "ads.com", DNSType: q.DNSType, ClientName: q.ClientName, ClientIP: q.ClientIP, Tags: q.Tags}
+			q = &gen.Req{HostnameReq: true, Host: xHost, DNSType: q.DNSType, ClientName: q.ClientName, ClientIP: q.ClientIP, Tags: q.Tags}
 			if q.DNSType == 0 {
 				q.DNSType = 1
 			}
 		} else {
-			q.URL = "http://ads.com/banner"
+			q.URL = xURL
 			if q.Source == "" || c.Rng.Intn(2) == 0 {
 				q.Source = "http://site.com/"
 			}
@@ -518,6 +532,7 @@ func init() {
 		Rule: "metamorphic: base lists of 0..6 (one in twenty: 13..42) rules (+ hosts lines / referrer exceptions), k = 1..4 extra rules that are mutually similar (variations of one rule in one aspect) added with their $badfilter twins at random positions, " +
 			"and rules y differing from x in exactly one of {exception, pattern, content type, third-party, important, $domain, $denyallow, $dnstype, $ctag, $client, $dnsrewrite, match-case} added with x$badfilter; " +
 			"one extra rule in four is added two or three times (one twin disables every copy); " +
+			"one case in six the extra rules have a pattern with raw non-ASCII text (five ASCII bytes, then a multi-byte character) and the requests carry it; " +
 			"verdicts before/after are compared through rule objects in list order (NewMatchingResult, GetDNSBasicRule, DNSRewrites: exact texts) and through Engine, NetworkEngine and DNSEngine (equal up to priority ties); non-trivial = every extended list; distinct by relation and list",
 		Assumptions: []string{
 			"twins keep the value order inside each modifier (a permuted $domain list is a declared don't-care)",
